@@ -51,8 +51,8 @@ PROPS = {
                    "replica rebuilt from the whole log", "ApplyBatch with several entries",
                    "snapshot image contains effects of entries applied after Snapshot()", "polluted snapshot image converged after replay"],
         "assumptions": _M_ASSUMPTIONS,
-        "quick": {"runs": 24000, "budget_s": 100, "workers": 14},
-        "thorough": {"runs": 320000, "budget_s": 900, "workers": 16},
+        "quick": {"runs": 20000, "budget_s": 110, "workers": 14},
+        "thorough": {"runs": 220000, "budget_s": 900, "workers": 16},
     },
     "C16": {
         "world": "M", "level": "exploration",
@@ -65,7 +65,7 @@ PROPS = {
         "eval_extra": ["entries", "wellformed_checks"],
         "probes": ["restore of a non-empty catalogue", "replica rebuilt from snapshot + log suffix", "ApplyBatch with several entries"],
         "assumptions": _M_ASSUMPTIONS,
-        "quick": {"runs": 24000, "budget_s": 100, "workers": 14},
-        "thorough": {"runs": 320000, "budget_s": 900, "workers": 16},
+        "quick": {"runs": 20000, "budget_s": 110, "workers": 14},
+        "thorough": {"runs": 220000, "budget_s": 900, "workers": 16},
     },
 }
